@@ -275,6 +275,22 @@ func (p *ProjectRunner) GetProcessState(name string) (*types.ProcessState, error
 	}
 }
 
+// getProcessStateSnapshot returns a copy of the process state taken under the lock that guards it
+func (p *ProjectRunner) getProcessStateSnapshot(name string) (types.ProcessState, error) {
+	proc := p.getRunningProcess(name)
+	if proc != nil {
+		return proc.getStateSnapshot(), nil
+	}
+	p.statesMutex.Lock()
+	defer p.statesMutex.Unlock()
+	state, ok := p.processStates[name]
+	if !ok {
+		log.Error().Msgf("Error: process %s doesn't exist", name)
+		return types.ProcessState{}, fmt.Errorf("can't get state of process %s: no such process", name)
+	}
+	return *state, nil
+}
+
 func (p *ProjectRunner) getProcessStateData(name string, filter filterFn) error {
 	proc := p.getRunningProcess(name)
 	if proc != nil {
@@ -298,11 +314,11 @@ func (p *ProjectRunner) GetProcessesState() (*types.ProcessesState, error) {
 		States: make([]types.ProcessState, 0),
 	}
 	for name := range p.project.Processes {
-		state, err := p.GetProcessState(name)
+		state, err := p.getProcessStateSnapshot(name)
 		if err != nil {
 			return nil, err
 		}
-		states.States = append(states.States, *state)
+		states.States = append(states.States, state)
 
 	}
 	return states, nil
@@ -820,14 +836,14 @@ func (p *ProjectRunner) renameProcess(name string, newName string) {
 		p.processLogs[newName] = logs
 		p.logsMutex.Unlock()
 	}
-	state, err := p.GetProcessState(name)
-	if err == nil {
-		p.statesMutex.Lock()
-		defer p.statesMutex.Unlock()
+	// the state record itself (shared with the process) moves to the new name
+	p.statesMutex.Lock()
+	if state, ok := p.processStates[name]; ok {
 		delete(p.processStates, name)
 		state.Name = newName
 		p.processStates[newName] = state
 	}
+	p.statesMutex.Unlock()
 	procConf, ok := p.project.Processes[name]
 	if ok {
 		delete(p.project.Processes, name)
@@ -942,7 +958,7 @@ func (p *ProjectRunner) GetDependenciesOrderNames() ([]string, error) {
 func (p *ProjectRunner) GetProjectState(checkMem bool) (*types.ProjectState, error) {
 	runningProcesses := 0
 	for name := range p.project.Processes {
-		state, err := p.GetProcessState(name)
+		state, err := p.getProcessStateSnapshot(name)
 		if err != nil {
 			return nil, err
 		}
